@@ -428,8 +428,17 @@ class _NP:
             return _np.where(cond, a, b)
         cond, a, b = _np.broadcast_arrays(_np.asarray(cond, dtype=object), _np.asarray(a, dtype=object), _np.asarray(b, dtype=object))
         out = _np.empty(cond.shape, dtype=object).view(SA)
+        assume = ctx().__dict__.get("where_assume_true", False)
         for idx in _np.ndindex(cond.shape):
             c = cond[idx]
+            if isinstance(c, SB) and assume:
+                # harness policy: the condition is *assumed* (recorded as an assumption of the path), no If-term is built
+                cb = simp(c.b)
+                if not z3.is_true(cb) and not z3.is_false(cb):
+                    ctx().assumptions.append(cb)
+                    ctx().__dict__["where_assumed"] = ctx().__dict__.get("where_assumed", 0) + 1
+                    _np.ndarray.__setitem__(out, idx, _sr(a[idx]))
+                    continue
             if isinstance(c, SB):
                 cb = simp(c.b)
                 if z3.is_true(cb):
